@@ -99,11 +99,11 @@ PROPS = {
         'random texts over an alphabet of operators, keywords, digits, wildcards, slashes, backslashes, whitespace, quotes, non-ASCII; quoted and escaped spellings',
         '', ['oracle facts: double quote, colon and the four whitespace runes are not letters or digits']),
     'C09': P(
-        ['C09_keyword_case', 'C09_redundant_parentheses', 'C09_redundant_parentheses_same_parse'],
+        ['C09_keyword_case', 'C09_whitespace_same_tokens', 'C09_whitespace_same_parse', 'C09_redundant_parentheses', 'C09_redundant_parentheses_same_parse'],
         [('corpus', 0), ('layout', 1500)],
         [('corpus', 0), ('layout', 30000), ('enum', 5000)],
         PARSE,
-        'partial: keyword case (token type of a word is invariant under ASCII case of AND/OR/NOT/TO) and redundant parentheses around any operand of a printed tree (C05 with extra Par nodes) proved; the whitespace clause (lex_ws) is decided by C09_check on variant pairs.',
+        'whitespace clause proved for ASCII inputs (any change of the whitespace between and around tokens that removes no existing separator gives the same token stream, hence the same parse result; words ending in a dangling escape excluded = K14); keyword case: the token type of a word is invariant under ASCII letter case; redundant parentheses: two printed trees differing only in parenthesis nodes parse (parser loop + Validate) to the same tree. Not proved: whitespace for non-ASCII input (UTF-8 decoding across a changed boundary), parentheses in arbitrary accepted token sequences that are not printed trees (K15 lives there); both decided by C09_check on variant pairs.',
         'variant pairs (whitespace fillings incl. tabs/newlines/none, keyword case, redundant parentheses) of random trees and of arbitrary token sequences',
         '', []),
     'C10': P(
